@@ -211,6 +211,7 @@ def run_unit(name, tier='quick', seed=0):
     r.wall = 0.0
     r.bounded = []
     r.lost = []
+    r.degraded = set()
     t0 = time.time()
     wd = os.path.join(WORK, name)
     os.makedirs(wd, exist_ok=True)
@@ -246,6 +247,7 @@ def run_unit(name, tier='quick', seed=0):
     r.obligations.update(lemma_obligations(u, text, spans, fns))
     r.functions = u.functions
     r.lost = list(u.lost_anchors)
+    r.degraded = set(u.degraded_fns)
     r.log = u.log
     r.trusted = tb + ['N6 havoc: ' + h for h in u.havocs] + ['N7 ' + x for x in u.reduced] + list(u.trait_contracts)
     renames = sorted(set((l['before'], l['after']) for l in u.log if l['rule'] == 'N3'))
